@@ -318,6 +318,11 @@ type TB interface {
 // minimal case last) and stops the current case.
 func (r *R) Fail(t TB, check string, c any, err error) {
 	t.Helper()
+	if strings.HasPrefix(err.Error(), "infrastructure:") {
+		// the harness itself failed: never a verdict (the shard ends abnormally, the driver exits 2)
+		b, _ := json.Marshal(c)
+		t.Fatalf("INFRASTRUCTURE %s/%s: %v (case %s)", r.res.Property, check, err, b)
+	}
 	r.Record(check, c, err)
 	t.Fatalf("VIOLATION %s/%s: %v", r.res.Property, check, err)
 }
